@@ -448,3 +448,56 @@ package gedcom
 //@   props C13
 //@   denies @abstract
 //@   allows Document.nodes, elem:Node
+
+// ---------------------------------------------------------------------------
+// C11: data-race freedom of the matching pipeline as a frame condition on the
+// goroutine bodies: every closure started with `go` or handed to
+// util.WorkerPool in these functions may write pre-existing (shared) memory
+// only through synchronisation primitives, channels or under a mutex held in
+// the writing function. Sufficient for race freedom (reads alone never race),
+// not necessary.
+// Also allowed: a goroutine's own (captured) channel variables; and the two
+// counters below, which the producer goroutine of createJobs sets before it
+// starts its workers and which are afterwards only touched under totalMutex
+// (adjustTotal) - that ordering argument is made here, not by the checker.
+//@ fieldgroup synced = sync:*, sync.Map, chan, ext:*sync.*, deref:chan *, IndividualNodesCompareOptions.leftLen, IndividualNodesCompareOptions.rightLen
+//@ frame createPointerJobs
+//@   props C11
+//@   closures
+//@   no-unsync
+//@   allows @synced
+//@ frame createUniqueJobs
+//@   props C11
+//@   closures
+//@   no-unsync
+//@   allows @synced
+//@ frame createJobs
+//@   props C11
+//@   closures
+//@   no-unsync
+//@   allows @synced
+//@ frame IndividualNodesCompareOptions.processJobs
+//@   props C11
+//@   closures
+//@   no-unsync
+//@   allows @synced
+//@ frame IndividualNodesCompareOptions.collectResults
+//@   props C11
+//@   closures
+//@   no-unsync
+//@   allows @synced
+//@ frame IndividualNodesCompareOptions.calculateWinners
+//@   props C11
+//@   closures
+//@   no-unsync
+//@   allows @synced
+//@ frame IndividualNodesCompareOptions.getTotals
+//@   props C11
+//@   closures
+//@   no-unsync
+//@   allows @synced
+//@ frame IndividualNodes.Compare
+//@   props C11
+//@   closures
+//@   no-unsync
+//@   allows @synced
